@@ -61,8 +61,8 @@ func CopyFileHash(dstFs, srcFs VFSBase, dstPath, srcPath string, hasher hash.Has
 
 	defer func() {
 		cerr := dst.Close()
-		if cerr == nil {
-			err = cerr
+		if cerr != nil && err == nil {
+			sum, err = nil, cerr
 		}
 	}()
 
